@@ -216,7 +216,8 @@ func runFanout(rc *RunCtx, o fanOpts) {
 	}
 	rebinds := 0
 	nOps := tp.Choose(maxP+3, "nhist")
-	pipeIDs := []string{"p0", "p1", "p2", "p3"}
+	// (ids are opaque strings: surrounding white space belongs to the id)
+	pipeIDs := []string{"p0", "p1 ", " p2", "p3\n"}
 	for i := 0; i < nOps; i++ {
 		typ := types[tp.Choose(len(types), "ptype")]
 		pid := pipeIDs[tp.Choose(maxP, "pid")]
